@@ -318,4 +318,104 @@ def PS.extractDeterministic (p : PS) : DS :=
 def PS.toDesignSpace (p : PS) : DS :=
   { vars := (p.extractDeterministic).vars ++ p.unc.filterMap p.ds.find? }
 
+/-! ### The `out` argument of the vector maps: arrays are mutable objects
+
+`x_vect` and `out` are references to array objects that may be the *same* object (in-place call),
+and `split_array_to_dict_of_arrays` returns views on `x_vect`, read only when `evaluate_cdf` runs.
+The calls are therefore modelled over a store of arrays, statement by statement:
+
+* `DesignSpace.normalize_vect(x, minus_lb, out)` / `unnormalize_vect(x, minus_lb, no_check, out)`:
+  `out = x_vect.copy()` (no `out`) or `out[...] = x_vect`, then the affine operations in place on
+  `out`, `return out` (an all-integer space with `minus_lb` returns `out.astype(int)`: a new array
+  with the same values — the model returns `out`);
+* `ParameterSpace.__normalize_vect/__unnormalize_vect(x, minus_lb[, no_check], out)`:
+  the geometric map of the whole vector in a new array, `evaluate_cdf` on the views of `x_vect`
+  (read at that moment), the blocks concatenated in a new array, `out[...] = result; return out`
+  when `out` is given.
+`α` is `List Rat` for 1-D arrays and `List (List Rat)` for 2-D arrays. -/
+
+abbrev Heap (α : Type) := List α
+
+def Heap.read {α : Type} [Inhabited α] (h : Heap α) (a : Nat) : α := (h[a]?).getD default
+
+/-- `arr[...] = v` -/
+def Heap.write {α : Type} (h : Heap α) (a : Nat) (v : α) : Heap α := List.set h a v
+
+/-- a new array object holding `v`: the store and the address of the new array -/
+def Heap.alloc {α : Type} (h : Heap α) (v : α) : Heap α × Nat := (h ++ [v], h.length)
+
+/-- `DesignSpace.(un)normalize_vect(x_vect, ..., out)` on the store; `f` is the value-level map. -/
+def dsVectOut {α : Type} [Inhabited α] (f : α → α) (h : Heap α) (ax : Nat) :
+    Option Nat → Heap α × Nat
+  | none =>
+    let r := h.alloc (h.read ax)                    -- out = x_vect.copy()
+    (r.1.write r.2 (f (r.1.read r.2)), r.2)         -- in-place operations on out; return out
+  | some ao =>
+    let h1 := h.write ao (h.read ax)                -- out[...] = x_vect
+    (h1.write ao (f (h1.read ao)), ao)              -- in-place operations on out; return out
+
+/-- `ParameterSpace.__(un)normalize_vect(x_vect, ..., out)` on the store: `f` is the geometric map,
+    `comb xs geom` what is assembled from the views on `x_vect` (content `xs` *when `evaluate_cdf`
+    runs*) and from the geometric result. -/
+def distVectOut {α : Type} [Inhabited α] (f : α → α) (comb : α → α → Option α) (h : Heap α)
+    (ax : Nat) (out : Option Nat) : Option (Heap α × Nat) :=
+  let g := dsVectOut f h ax none                    -- x_geom = super().normalize_vect(x_vect, minus_lb)
+  (comb (g.1.read ax) (g.1.read g.2)).map (fun y =>
+    let r := g.1.alloc y                            -- concatenate_dict_of_arrays_to_array(...)
+    match out with
+    | none => r                                     -- return x_n
+    | some ao => (r.1.write ao (r.1.read r.2), ao)) -- out[...] = x_n; return out
+
+/-- What `__normalize_vect` assembles from the content `xs` of `x_vect` and the geometric result. -/
+def PS.normComb (p : PS) (env : Env) (xs geom : List Rat) : Option (List Rat) :=
+  let dictSample := p.ds.names.zip (splitBySizes p.ds.sizes xs)
+  let g := p.ds.names.zip (splitBySizes p.ds.sizes geom)
+  (p.evaluateCdf env false dictSample).map (fun xn => assemble p.ds.names xn g)
+
+def PS.unnormComb (p : PS) (env : Env) (us geom : List Rat) : Option (List Rat) :=
+  let g := p.ds.names.zip (splitBySizes p.ds.sizes geom)
+  let dictU := p.ds.names.zip (splitBySizes p.ds.sizes us)
+  if !p.checkUnit dictU then none
+  else (p.evaluateCdf env true dictU).map (fun xu => assemble p.ds.names xu g)
+
+def PS.normComb2 (p : PS) (env : Env) (rows geom : List (List Rat)) : Option (List (List Rat)) :=
+  let dictSample := p.ds.names.zip (splitCols p.ds.sizes rows)
+  let g := p.ds.names.zip (splitCols p.ds.sizes geom)
+  (p.evaluateCdf2 env false dictSample).map (fun xn => assemble2 rows.length p.ds.names xn g)
+
+def PS.unnormComb2 (p : PS) (env : Env) (rows geom : List (List Rat)) : Option (List (List Rat)) :=
+  let g := p.ds.names.zip (splitCols p.ds.sizes geom)
+  let dictU := p.ds.names.zip (splitCols p.ds.sizes rows)
+  if !p.checkUnit2 dictU then none
+  else (p.evaluateCdf2 env true dictU).map (fun xu => assemble2 rows.length p.ds.names xu g)
+
+/-- `normalize_vect(x_vect, minus_lb, use_dist, out)` (1-D) on the store: the new store and the
+    address of the returned array; `none`: the call raises. -/
+def PS.normalizeVectOut (p : PS) (env : Env) (minusLb useDist : Bool) (h : Heap (List Rat))
+    (ax : Nat) (out : Option Nat) : Option (Heap (List Rat) × Nat) :=
+  if !useDist then some (dsVectOut (p.ds.normalizeVect minusLb) h ax out)
+  else distVectOut (p.ds.normalizeVect minusLb) (p.normComb env) h ax out
+
+def PS.unnormalizeVectOut (p : PS) (env : Env) (minusLb useDist : Bool) (h : Heap (List Rat))
+    (ax : Nat) (out : Option Nat) : Option (Heap (List Rat) × Nat) :=
+  if !useDist then some (dsVectOut (p.ds.unnormalizeVect minusLb) h ax out)
+  else distVectOut (p.ds.unnormalizeVect minusLb) (p.unnormComb env) h ax out
+
+def PS.normalizeVect2Out (p : PS) (env : Env) (minusLb useDist : Bool) (h : Heap (List (List Rat)))
+    (ax : Nat) (out : Option Nat) : Option (Heap (List (List Rat)) × Nat) :=
+  if !useDist then some (dsVectOut (List.map (p.ds.normalizeVect minusLb)) h ax out)
+  else distVectOut (List.map (p.ds.normalizeVect minusLb)) (p.normComb2 env) h ax out
+
+def PS.unnormalizeVect2Out (p : PS) (env : Env) (minusLb useDist : Bool)
+    (h : Heap (List (List Rat))) (ax : Nat) (out : Option Nat) :
+    Option (Heap (List (List Rat)) × Nat) :=
+  if !useDist then some (dsVectOut (List.map (p.ds.unnormalizeVect minusLb)) h ax out)
+  else distVectOut (List.map (p.ds.unnormalizeVect minusLb)) (p.unnormComb2 env) h ax out
+
+def PS.transformVectOut (p : PS) (env : Env) (h : Heap (List Rat)) (ax : Nat) (out : Option Nat) :=
+  p.normalizeVectOut env true true h ax out
+
+def PS.untransformVectOut (p : PS) (env : Env) (h : Heap (List Rat)) (ax : Nat) (out : Option Nat) :=
+  p.unnormalizeVectOut env true true h ax out
+
 end GV.C19
